@@ -645,8 +645,14 @@ def cause_of(cat, what, got, via, feats):
     ctorish = what in ("dc", "cc", "default-ctor", "copy-ctor")
     over = got in (1, "exported")          # interrogate says yes / exports, C++ says no
     under = got in (0, "missing")
-    if "dependent-base" in bare and under and "template" in bare:
+    if "dependent-base" in bare and "template" in bare:
+        # (the instantiated base `B< int >` of `D<int> : B<T>` is a distinct, unsubstituted object: its T-typed
+        # members stay template parameters and it is not the same type as a directly named B<int>)
         return "dependent-base-class-not-instantiated"
+    if "template" in bare and under and via != "self" and "dependent-member-type" not in bare:
+        # the witness needs the derived class to be a template although its bases are ordinary classes
+        # (the `untemplate` step was tried and passed): instantiation re-substitutes the non-dependent base
+        return "non-dependent-base-of-template-misjudged"
     if what in ("dc", "default-ctor") and over and len(bare) == 1 and bare <= CONST_MEMBERS:
         return "const-member-no-init"
     if over and (set(feats) & DEFAULTED.get(what, set())):
